@@ -432,6 +432,55 @@ func init() {
 			}
 		}
 	}
+	// one root whose rendering is larger than 32 and 64 KiB (and a small root after it): a writer that fails at the first
+	// writes, in the middle, at the last but one and at the last write of the fault-free run, in every flavour
+	bigRoots := props["C14"]
+	props["C14"] = func(c *rep.Ctx) {
+		bigRoots(c)
+		for _, kids := range []int{1100, 2300} {
+			var sb strings.Builder
+			sb.WriteString("- big\n")
+			for i := 0; i < kids; i++ {
+				fmt.Fprintf(&sb, "  - child-%04d-xxxxxxxxxxxxxxxxxxxx\n", i)
+			}
+			for _, tailRoot := range []string{"", "- second\n  - k\n"} {
+				doc := sb.String() + tailRoot
+				for _, mode := range []string{"text", "text-noiter", "dry", "json"} {
+					routes := []string{"md"}
+					if tailRoot == "" && mode != "text-noiter" {
+						routes = append(routes, "root")
+					}
+					for _, route := range routes {
+						if !c.Take() || c.Expired() {
+							continue
+						}
+						base := c14Replay{Kind: "c14", Doc: doc, Mode: mode, Route: route, Reader: -1}
+						w0 := &failWriter{}
+						if err0, pan0 := c14CallEOF(base, w0); err0 != nil || pan0 != "" {
+							c.Violation("C14|fault-free-run-failed", fmt.Sprintf("big root (%d children) mode=%s route=%s: %v %s", kids, mode, route, err0, pan0), kids, nil)
+							continue
+						}
+						full := w0.buf.String()
+						c.StateN(1)
+						c.Inc("big_root_cases")
+						idx := map[int]bool{1: true, 2: true, 3: true, w0.writes / 2: true, w0.writes - 1: true, w0.writes: true}
+						for j := range idx {
+							if j < 1 || j > w0.writes {
+								continue
+							}
+							for v := 0; v < 4; v++ {
+								r := base
+								r.Writer = j
+								r.Short, r.Once, r.Full = v == 1, v == 2, v == 3
+								c.Nontrivial()
+								c14Case(c, r, full)
+							}
+						}
+					}
+				}
+			}
+		}
+	}
 	replayers["c14"] = func(raw json.RawMessage) bool {
 		var r c14Replay
 		if json.Unmarshal(raw, &r) != nil {
